@@ -9,7 +9,7 @@ import (
 )
 
 func (w *World) hasReady(n *Node) bool {
-	if n.Stopped || n.Pending != nil {
+	if n.Stopped || n.Pending != nil || n.ReadyPaused {
 		return false
 	}
 	return n.RN.HasReady()
@@ -331,6 +331,9 @@ func (w *World) nodeFingerprint(n *Node) []byte {
 	}
 	if n.AppendPaused {
 		b = append(b, 3)
+	}
+	if n.ReadyPaused {
+		b = append(b, 4)
 	}
 	for _, q := range [][]*pb.Message{n.AppendQ, n.ApplyQ, n.LocalQ} {
 		b = binary.AppendUvarint(b, uint64(len(q)))
